@@ -16,7 +16,7 @@ PROPS = {
         "rule": "seed files written by the engine's own writers for 13 extensions (3 documents, with/without SAUCE, 0/1/255 comments, compression on/off) plus hand-built streams, fonts (PSF1, PSF2, raw), TheDraw fonts and bundles, 5 palette formats, "
                 "bare SAUCE records, clipboard data and IcyDraw files kept as chunk lists; per seed every truncation point, a value menu at every header/tail byte, every 16/32-bit field (LE and BE) of the first 48 bytes set to extremes singly and in pairs, "
                 "IcyDraw chunk payload truncations / byte and field faults / reorderings / renames with the PNG container kept valid; every prefix <= 64 bytes of every seed under 24 extensions; all byte strings of length <= 2 under every extension and extractor; "
-                "a deviation-bounded product of SAUCE tails; control-token streams (depth <= 2) as files of the 8 text formats; odd file names; PSF2 headers whose (headersize, length, charsize) solve the loader's length equation under signed / unsigned / wrapping readings of 14 extreme operand values (cooperating fields); ANSI files with three / four sixel images of which a later one covers two earlier ones. non-trivial = the loader accepted the input",
+                "a deviation-bounded product of SAUCE tails; control-token streams (depth <= 2) as files of the 8 text formats; odd file names; PSF2 headers whose (headersize, length, charsize) solve the loader's length equation under signed / unsigned / wrapping readings of 14 extreme operand values (cooperating fields); ANSI files with three / four sixel images of which a later one covers two earlier ones; explicit files: fonts of degenerate size loaded by the file itself followed by a sixel image, sparse cursor jumps and line inserts under SAUCE records with extreme heights, IcyDraw layer records with extreme 64 bit lengths; the binary palette constructors and all six palette formats. non-trivial = the loader accepted the input",
         "level_text": "every fault of the stated menus is applied to every seed and loaded by the real loaders and extractors under catch_unwind in killable worker processes",
         "level_note": "faults are single and pairwise (not arbitrary multi-byte corruption); cases cut by the CPU/memory budget are counted, the header-extreme strata are judged under C03's budget by the C03 check",
         "technique": "exhaustive fault enumeration (truncation points, corruption menus, field extremes) over a seed corpus on the implementation",
